@@ -296,8 +296,10 @@ def load(repo=None, rebuild=False, quiet=False):
     prog = Program(bodies, repo, key)
     prog.built = built
     # fail-closed sanity floors
-    if len(bodies) < MIN_BODIES:
-        raise FactsError('ANCHOR-MISSING: only %d MIR bodies (floor %d) — wrapper skipped or crate shrank' % (len(bodies), MIN_BODIES))
+    nfn = len([b for b in bodies if b.promoted is None])
+    prog.n_fn_bodies = nfn
+    if nfn < MIN_BODIES:
+        raise FactsError('ANCHOR-MISSING: only %d MIR fn bodies (floor %d) — wrapper skipped or crate shrank' % (nfn, MIN_BODIES))
     for h in HANDLERS:
         n = '<%s as CKBProtocolHandler>::received::{closure#0}' % h
         if not prog.has(n):
